@@ -143,6 +143,34 @@ def run(prop, tier):
                 continue
             f.write(json.dumps({"id": r["id"], "group": r["group"], "configs": cfgs, "serde_identical": o["serde_identical"]}) + "\n")
             nrec += 1
+    # imports inside REPL sessions: the same use of the module as a line of a session - alone, after a line that
+    # imported the module and was then REJECTED by the compiler (seeded change C10-2: the module cache kept ids
+    # of the discarded program clone), and after such a line plus an unrelated accepted line.  The records join
+    # the pair's group, so HistoryIndependent compares them with the in-place reading.
+    sess = []
+    for mi, (mod, uses) in enumerate(IMPORTS):
+        for ui, (via, inplace) in enumerate(uses):
+            g = "imp%d_%d" % (mi, ui)
+            rejected_line = "zz = %m, no_such_variable_q"
+            for tag, lines in (("alone", [via]), ("after_rejected_import", [rejected_line, via]),
+                               ("after_rejected_import_and_line", [rejected_line, POOL[0], via]),
+                               ("twice", [via, via])):
+                sess.append({"id": g + "|session|" + tag, "group": g, "lines": lines, "modules": {"m": mod},
+                             "inplace": inplace})
+    souts = common.qrun(sess, timeout=600)
+    with open(tf, "a") as f:
+        for r in sess:
+            o = souts.get(r["id"])
+            if not o or not o.get("outcomes") or o.get("crashes"):
+                last = {"t": "error", "e": "crash or no outcome"}
+            else:
+                v = o["outcomes"][-1]
+                last = ({"t": "value", "v": canon(v["v"])} if v["t"] == "value" else
+                        {"t": "error", "e": v.get("e", v.get("m", ""))[:80]} if v["t"] in ("error", "rejected") else {"t": v["t"]})
+            f.write(json.dumps({"id": r["id"], "group": r["group"], "configs": {"session": last}, "serde_identical": True}) + "\n")
+            nrec += 1
+    check.cov["import_uses_in_repl_sessions"] = len(sess)
+    byid.update({r["id"]: r for r in sess})
     res = tlc("PackagingTrace", "PackagingTrace.cfg", env={"PKG_TRACE": tf}, workers=1, timeout=3000)
     check.add_tlc("judge:PackagingTrace", res)
     if "INCOMPLETE" in res.out or (not res.ok and "MISMATCH|" not in res.out):
@@ -200,7 +228,8 @@ def run(prop, tier):
             continue
         seen.add(key)
         check.violation({"property": prop, "rule": rule, "program": r.get("src"), "history": r.get("history"),
-                         "modules": r.get("modules"), "detail": detail[:1500]}, name=rule, key=key,
+                         "modules": r.get("modules"), "lines": r.get("lines"), "inplace": r.get("inplace"),
+                         "detail": detail[:1500]}, name=rule, key=key,
                         what="%s for %s: %s" % (rule, rid, detail[:300]))
     os.remove(tf)
     check.assumptions += ["the agreed outcome is the implementation's own (C02 judges generated programs against SeqLang)",
@@ -210,6 +239,18 @@ def run(prop, tier):
 
 def replay(prop, path):
     r = json.load(open(path))
+    if r.get("lines"):
+        # an import used inside a REPL session against its in-place reading
+        o = common.qrun([{"id": "s", "lines": r["lines"], "modules": r.get("modules") or {}},
+                         {"id": "i", "src": r["inplace"]}])
+        def last(x):
+            v = x["outcomes"][-1] if x.get("outcomes") else {"t": "none"}
+            return json.dumps(canon(v["v"]), sort_keys=True) if v["t"] == "value" else json.dumps(v, sort_keys=True)
+        print(last(o["s"]), "vs in place", last(o["i"]))
+        if last(o["s"]) != last(o["i"]):
+            print("VIOLATION property=%s replay=%s" % (prop, path))
+            return 1
+        return 0
     req = {"id": "replay", "src": r["program"], "history": r.get("history") or [], "modules": r.get("modules") or {}}
     p = common.run_bin("pkgrun", stdin=json.dumps(req) + "\n")
     print(p.stdout[:3000])
